@@ -7,6 +7,7 @@
    A crypto call at an input other than the recorded one gets an unusable answer, so a
    model/harness disagreement on WHICH bytes are sampled or authenticated shows up as a diff. -/
 import Hy.Model.QuicInitial
+import Hy.Model.SniffServer
 import Hy.Drv.Sniff
 namespace Hy.Drv.QuicInitial
 open Hy Hy.Quic Hy.Drv Hy.Drv.Sniff
@@ -15,29 +16,79 @@ def showOpt : Option Bytes → String
   | none => "~"
   | some b => toHexF b
 
+/-- the crypto parameters as recorded by the harness -/
+def mkCrypto (sample mask : Option Bytes) (pn hl : Nat) (plain : Option Bytes) : Crypto := {
+  mask := fun _ _ s => match sample, mask with
+    | some sm, some mk => if s = sm then mk else []
+    | _, _ => []
+  open_ := fun _ _ p hdr _ => if p = pn ∧ hdr.length = hl then plain else none
+  scribble := id }
+
+def mkSort (perm : List Nat) : List Frame → List Frame := fun l =>
+  if perm.length = l.length then perm.filterMap (fun i => l[i]?) else l
+
+def parseOpen (opn : String) : Option (Option Bytes) :=
+  if opn = "~" ∨ opn = "!" then some none else (ofHex opn).map some
+
 def stepUdp (addr pkt sample mask pn hl opn perm sni : String) : String :=
   match ofHex addr, ofHex pkt, parseOptBytes sample, parseOptBytes mask, pn.toNat?, hl.toNat?,
-        parseNatList perm, parseOptBytes sni with
-  | some addr, some pkt, some sample, some mask, some pn, some hl, some perm, some sni =>
-    let plain : Option (Option Bytes) :=
-      if opn = "~" ∨ opn = "!" then some none else (ofHex opn).map some
-    match plain with
-    | none => "bad-op"
-    | some plain =>
-      let C : Crypto := {
-        mask := fun _ _ s => match sample, mask with
-          | some sm, some mk => if s = sm then mk else []
-          | _, _ => []
-        open_ := fun _ _ p hdr _ => if p = pn ∧ hdr.length = hl then plain else none
-        scribble := id }
-      let sortFn : List Frame → List Frame := fun l =>
-        if perm.length = l.length then perm.filterMap (fun i => l[i]?) else l
-      match sniffUDP Quic.fixed C sortFn (fun _ => sni) addr pkt, readCryptoPayload Quic.fixed C sortFn pkt with
-      | .ok o, .ok (_, pl) =>
-        let d := if o.data = pkt then "=" else toHexF o.data
-        s!"ok data={d} addr={toHexF o.addr} err={showBool o.err} pl={showOpt pl}"
-      | _, _ => "panic"
-  | _, _, _, _, _, _, _, _ => "bad-op"
+        parseNatList perm, parseOptBytes sni, parseOpen opn with
+  | some addr, some pkt, some sample, some mask, some pn, some hl, some perm, some sni, some plain =>
+    let C := mkCrypto sample mask pn hl plain
+    let sortFn := mkSort perm
+    match sniffUDP Quic.fixed C sortFn (fun _ => sni) addr pkt, readCryptoPayload Quic.fixed C sortFn pkt with
+    | .ok o, .ok (_, pl) =>
+      let d := if o.data = pkt then "=" else toHexF o.data
+      s!"ok data={d} addr={toHexF o.addr} err={showBool o.err} pl={showOpt pl}"
+    | _, _ => "panic"
+  | _, _, _, _, _, _, _, _, _ => "bad-op"
+
+/-! end-to-end cases (component `sniffe2e`): the server's composition, Hy.Model.SniffServer -/
+
+/-- `t <hooked> <addr> <sent> <cut|-> <kind h|s|n> <name|~>`: the client's bytes arrive as one
+    chunk, or as two with the sniff deadline firing between them (after exactly the Read calls
+    the sniffer needs for the first); the parser returns `name` on the visible bytes. -/
+def e2eTcp (hooked addr sent cut kind name : String) : String :=
+  match parseBool hooked, ofHex addr, ofHex sent, parseDl cut, parseOptBytes name with
+  | some hooked, some addr, some sent, some cut, some name =>
+    let P : Sniff.Parsers := {
+      reads := List.replicate 100 4096
+      httpHost := fun _ => if kind = "h" then name else none
+      sni := fun _ => if kind = "s" then name else none }
+    let s : Sniff.Stream :=
+      match cut with
+      | none => ⟨[sent], none, false⟩
+      | some c =>
+        let big := 1000000
+        let used := match Sniff.sniffTCP Sniff.fixed P addr ⟨[sent.take c], some big, false⟩ with
+          | .ok o => big - o.s.dl.getD big
+          | _ => 0
+        ⟨[sent.take c, sent.drop c], some used, false⟩
+    match SniffServer.hookedTCP Sniff.fixed P hooked sent.length addr s with
+    | .ok w =>
+      let d := match w.dial with | some a => toHexF a | none => "~"
+      s!"t same={showBool (decide (w.target = sent))} n={w.target.length} dial={d} resp={w.responses}"
+    | _ => "panic"
+  | _, _, _, _, _ => "bad-op"
+
+def e2eUdp (hooked addr pkt sample mask pn hl opn perm sni : String) : String :=
+  match parseBool hooked, ofHex addr, ofHex pkt, parseOptBytes sample, parseOptBytes mask, pn.toNat?,
+        hl.toNat?, parseNatList perm, parseOptBytes sni, parseOpen opn with
+  | some hooked, some addr, some pkt, some sample, some mask, some pn, some hl, some perm, some sni, some plain =>
+    match SniffServer.hookedUDP Quic.fixed (mkCrypto sample mask pn hl plain) (mkSort perm) (fun _ => sni)
+        hooked addr pkt with
+    | .ok ⟨some d, some (p, to)⟩ => s!"u first={showBool (decide (p = pkt))} dial={toHexF d} to={toHexF to}"
+    | .ok _ => "u none"
+    | _ => "panic"
+  | _, _, _, _, _, _, _, _, _, _ => "bad-op"
+
+def stepE2E : Nat → List String → Option (List String)
+  | 0, [] => some []
+  | k + 1, "t" :: hooked :: addr :: sent :: cut :: kind :: name :: rest =>
+    (stepE2E k rest).map (fun l => e2eTcp hooked addr sent cut kind name :: l)
+  | k + 1, "u" :: hooked :: addr :: pkt :: sample :: mask :: pn :: hl :: opn :: perm :: sni :: rest =>
+    (stepE2E k rest).map (fun l => e2eUdp hooked addr pkt sample mask pn hl opn perm sni :: l)
+  | _, _ => none
 
 /-- `two k <7 fields per stream>…`: k streams through one Sniffer, one after the other -/
 def stepTwo : Nat → List String → Option (List String)
@@ -48,6 +99,12 @@ def stepTwo : Nat → List String → Option (List String)
 
 def step (line : String) : String :=
   match fields line with
+  | "e2e" :: k :: rest =>
+    match k.toNat? with
+    | some k => match stepE2E k rest with
+      | some outs => " ; ".intercalate outs
+      | none => "bad-op"
+    | none => "bad-op"
   | "two" :: k :: rest =>
     match k.toNat? with
     | some k => match stepTwo k rest with
